@@ -102,6 +102,11 @@ macro_rules! scenarios {
                 let $s = c18::C18;
                 $body
             }
+            #[cfg(feature = "alloc_world")]
+            "c18mt" => {
+                let $s = c18::C18Mt;
+                $body
+            }
             "c17api" => {
                 let $s = c17::C17Api;
                 $body
